@@ -812,6 +812,20 @@ func famScope(r *Rng, o *Out, tier string) {
 		})
 	})
 
+	// E4b AppsAllowing with the app caveat INSIDE a conditional whose else-mask differs from the app mask:
+	// "unrestricted" (nil) must mean that requests NAMING an app clear, not that the org-level request does
+	for _, oid := range []uint64{0, 1} {
+		for _, om := range []resset.Action{3, 31} {
+			for _, as := range []resset.ResourceSet[uint64, resset.Action]{{0: 1}, {0: 3}, {0: 31}, {1: 1}, {1: 31}, {1: 1, 2: 31}} {
+				for _, els := range []resset.Action{0, 1, 2, 31} {
+					x.runSet([]macaroon.Caveat{&flyio.Organization{ID: oid, Mask: om}, scWrapCond(els, &flyio.Apps{Apps: as})},
+						scSetOps{allow: true}, []resset.Action{1, 2})
+					o.count("exh.allow.cond")
+				}
+			}
+		}
+	}
+
 	// E5 validity windows
 	var vwPool []scMk
 	for _, na := range []int64{x.wnow - 3600, x.wnow + 3600, baseNow, scMaxUnix - 1, scMaxUnix, 1<<63 - 1, -1 << 63, 0} {
